@@ -755,6 +755,9 @@ pub(crate) fn search_batchinv(seed: u64) -> Option<String> {
     None
 }
 
+/// the variant's parameter set (for hooks in sibling modules)
+pub(crate) fn params_of(n: usize) -> FalconParameters { FalconVariant::from_n(n).parameters() }
+
 /// Directed witness search for the public-key codec (bounded; witness production only).
 pub(crate) fn pk_case<const N: usize>(b: &[u8]) -> Result<(), String> {
     // decode: accepted strings must be canonical and carry only fields below q
